@@ -1,0 +1,18 @@
+//go:build verif
+
+package p2p
+
+import (
+	"net"
+
+	"github.com/tendermint/tendermint/p2p/conn"
+)
+
+// Thin wrapper for the verification harness (/verif, property C16). Add-only; with the build tag
+// off this file does not exist for the compiler.
+
+// VerifUpgrade runs the transport's upgrade (secret connection, identity checks, node info
+// exchange) on the given conn.
+func (mt *MultiplexTransport) VerifUpgrade(c net.Conn, dialedAddr *NetAddress) (*conn.SecretConnection, NodeInfo, error) {
+	return mt.upgrade(c, dialedAddr)
+}
